@@ -270,8 +270,8 @@ Proof.
     by (apply (numkinv_env c (set_fs w2 (wfs w2))); [exact I2 | reflexivity | exact Q2]).
   assert (V2' : cur_view w2 wr = ocb oc1) by exact V2.
   destruct (cleanup_k c crit k w2 wr cl1 lo mid Hcfg (kside_v _) I2') as (w4 & Ec & S4 & I4 & V4).
-  assert (Ecl : match k with KNever => (Ok tt, w2) | _ => cleanup_impl c w2 k (ns_filter (NSNumR (N.of_nat (length cl1)))) (naming_writes_direct NNumbers) end
-                = cleanup_impl c w2 k IFNum false) by (destruct k; reflexivity).
+  assert (Ecl : forall d, match k with KNever => (Ok tt, w2) | _ => cleanup_impl c w2 k (ns_filter (NSNumR (N.of_nat (length cl1)))) (if naming_writes_direct NNumbers then Some d else None) end
+                = cleanup_impl c w2 k IFNum None) by (intros d; destruct k; reflexivity).
   assert (Ebg : match k with KNever => false | _ => c_bg c end = false) by (destruct k; auto).
   unfold initialize. rewrite Hrot, En. cbn [bind]. rewrite Eo. cbn [bind]. rewrite Ern. cbn [bind]. rewrite Ecl, Ec. cbn [bind]. rewrite Ebg.
   assert (E1 : fst (init_view_k c closed ocur) = cl1) by (rewrite <- Ev; reflexivity).
